@@ -138,6 +138,40 @@ Proof.
   - vm_compute. exact I.
 Qed.
 
+(* non-vacuity of the cross-engine join scope: a table in an SQL engine, transferred to an iteration engine and filtered
+   there, then joined with another table of the SQL engine: the join is inserted below the transfer, inside the SQL engine *)
+Example C03_mixed_join_in_scope :
+  let S := Eng KSql 0 in let I := Eng KIter 0 in
+  let a := 2%positive in let b := 4%positive in let d := 6%positive in
+  let env := fun n : positive => if Pos.eqb n 1 then [mkrow [(a, 1); (b, 5)]; mkrow [(a, 0); (b, 7)]]
+                                 else if Pos.eqb n 2 then [mkrow [(a, 1); (d, 9)]] else [] in
+  let p := MpJoin None true false
+             (MpUn (Sel (PCmp CGe (ERef b) (ELit 6))) default_opts (MpXfer I (MpLeaf 1 S (mkset [a; b]) 0 None)))
+             (MpLeaf 2 S (mkset [a; d]) 0 None) in
+  mixprog_ok env p /\
+  match build_multi p with
+  | Ok (Un (Sel _) (Xfer _ (SelM _ (Bin (Join _ _) _ _) _))) => True
+  | _ => False
+  end.
+Proof.
+  cbv zeta. split.
+  - cbn [mixprog_ok]. repeat split.
+    + apply (bool_decide_eq_true_1 _). vm_compute. reflexivity.
+    + apply (bool_decide_eq_true_1 _). vm_compute. reflexivity.
+    + apply (bool_decide_eq_true_1 _). vm_compute. reflexivity.
+    + apply rows_domb_spec. vm_compute. reflexivity.
+    + apply Z.le_refl.
+    + vm_compute. discriminate.
+    + intros t0 Hb. vm_compute in Hb. injection Hb as <-. reflexivity.
+    + apply rows_domb_spec. vm_compute. reflexivity.
+    + apply Z.le_refl.
+    + vm_compute. discriminate.
+    + intros tl tr Hl Hr. vm_compute in Hl, Hr. injection Hl as <-. injection Hr as <-.
+      right. split; [reflexivity|]. split; [reflexivity|].
+      cbn [spine_cons]. repeat split; apply consistentb_spec; vm_compute; reflexivity.
+  - vm_compute. exact I.
+Qed.
+
 (* non-vacuity for joins: a join with an operand in engine A is inserted below the transfer that left A, past a
    selection and a projection of the target *)
 Example C03_join_nonvacuous :
